@@ -1,5 +1,7 @@
 #![allow(dead_code, unused_imports, clippy::all)]
 mod disp;
+mod grid;
+mod streams;
 mod images;
 mod model;
 mod pool;
@@ -45,7 +47,16 @@ fn main() {
             let seed: u64 = std::env::var("VERIF_SEED").ok().and_then(|s| s.parse().ok()).unwrap_or(0);
             let verif_dir = std::env::var("VERIF_DIR").unwrap_or("/verif".into());
             let diag = props::diag::probe();
-            std::panic::set_hook(Box::new(|_| {}));
+            // panics inside the library are observations (caught); panics in the harness itself are
+            // machinery failures and must be visible
+            std::panic::set_hook(Box::new(|info| {
+                if let Some(l) = info.location() {
+                    if !l.file().contains("/repo/") && !l.file().contains(".cargo/registry") && !l.file().contains("/rustc/") {
+                        println!("MACHINERY: harness panic at {}:{}: {}", l.file(), l.line(), info);
+                        std::process::exit(3);
+                    }
+                }
+            }));
             util::silence_stderr();
             let ctx = Ctx { thorough: tier == "thorough", tier, seed, verif_dir, diag };
             let vd = ctx.verif_dir.clone();
